@@ -438,7 +438,7 @@ def main(tier, seed, replay=None):
     rs = np.random.RandomState(seed % (2 ** 31))
     C.proof_stage(rep, PID)
     rep.cov["trusted_base"] += ["harness/c03.py: construction of (possibly invalid) deeprob object graphs by attribute assignment and their mapping to Model/Heap.v literals",
-                                "BFS completeness (every reachable object is visited) is tied by comparing traversal orders on every enumerated graph, not proved (C03_bfs_partial)"]
+                                "BFS completeness is proved for the model (C03_bfs_complete); the implementation's traversal orders are tied to the model's on every enumerated graph"]
     specs = []
     tags = {}
     def add(tag, objs):
